@@ -69,10 +69,10 @@ PROPS = {
         "assumptions": ["VRF outputs are an environment table produced by the implementation's primitive; theorem premises: they are well-formed canonical 256-bit labels and do not collide (C18)"],
     },
     "C02": {
-        "coq_deps": ["DirFacts", "DirRefine"],
+        "coq_deps": ["DirFacts", "DirRefine", "LookupComplete"],
         "steps": [{"sub": "dirs", "quick": [0], "thorough": [1]}],
         "rule": "random publish histories on the real Directory (both configurations; cached/uncached; sequential/parallel insertion; labels incl. empty, 1-byte, prefix-related and 330-byte; values incl. empty and 1500-byte; inserts, updates, re-submissions, no-op and duplicate-label batches): after every publish the full database (every node record, the epoch record, every value state) and the returned epoch hash are recomputed by the extracted model; the root hash is recomputed from the history alone by the canonical-trie specification (specroot); every lookup, key-history (Complete, MostRecent 1/n/n+3/random) and audit proof is compared structurally with the model's and its verification verdict and result with the model verifier's; ground truth from an independent version table",
-        "partial": "theorems: unpublished label refused; in every reachable state a returned proof reports the latest state with the current epoch hash and its existence, marker and freshness parts verify against it (under non-colliding well-formed VRF outputs); the VRF-proof parts and the leaf-value check (commitment, epoch) of lookup_verify, and batch = single lookups, are decided by correspondence + oracle",
+        "partial": "theorems: unpublished label refused; END TO END in every reachable state the returned proof is accepted by lookup_verify against the returned epoch hash and yields exactly the latest (epoch, version, value) - premises: VRF outputs are well-formed 256-bit labels, do not collide, and the server's VRF proof verifies to the output (C18); batch_lookup = single lookups and the byte-level tie are decided by correspondence + oracle",
         "assumptions": ["VRF outputs are an environment table produced by the implementation's primitive"],
     },
     "C03": {
@@ -113,7 +113,7 @@ PROPS = {
         "coq_deps": ["DirSound", "HashingBinding"],
         "steps": [{"sub": "advdir", "quick": [0], "thorough": [1]}],
         "rule": "real directories (both configurations) over multi-epoch histories with a label updated in every epoch (versions crossing powers of two); a server holding key and tree assembles: every older version with every ancestor as anchor of the freshness proof; wrong value (with and without recomputed nonce), epoch +-1, version+1 on the same leaves, version beyond the epoch, a current epoch below the version, swapped existence/marker/freshness parts, bit-flipped and truncated VRF proofs, another label's proof or leaf, the honest proof against another epoch's root; histories with the newest 1-2 entries dropped (markers recomputed consistently, forged absences at every anchor, or markers unchanged), oldest dropped (complete / most-recent-n / n-1), reordered, duplicated, removed middle entry, exchanged or altered epochs, replaced values (with and without nonce), tombstone substitution in both modes, version 1 as tombstone with an earlier epoch (K2), omitted / surplus / swapped marker proofs, missing previous-version proofs, most-recent parameters below/equal/above the number of versions; plus trees built through Azks with the superseded version retired in time, one epoch late, or never; every VRF verification is evaluated by the implementation's primitive (vchk table), every verdict and result recomputed by the extracted model verifier; accepted => result must equal the truth table",
-        "partial": "proved for Default mode with Complete parameter (exact account) and per-entry truth for every parameter; MostRecent-N exactness, AllowMissingValues outside K2 and the late-stale-marker statement are decided by correspondence + oracle",
+        "partial": "Default mode is proved for Complete and for MostRecent(r) (exactly the newest min(r, n) true entries); AllowMissingValues outside the known class K2 and trees on which a superseded version is retired late or never are decided by the adversarial harness (oracle + verifier correspondence)",
         "assumptions": ["as C06"],
     },
     "C10": {
